@@ -6,6 +6,7 @@ import (
 	"database/sql/driver"
 	"errors"
 	"fmt"
+	"math"
 	"reflect"
 	"sort"
 	"strings"
@@ -849,6 +850,20 @@ func (t *tester) Test(row interface{}) bool {
 func coerceToColumn(column *Column, dv driver.Value) (driver.Value, bool) {
 	if dv == nil {
 		return nil, false
+	}
+	// The database compares numbers by value: a whole number written as a
+	// float (an id decoded from JSON) or a bool is the integer it denotes.
+	switch v := dv.(type) {
+	case float64:
+		if v == math.Trunc(v) && v >= -(1<<63) && v < 1<<63 {
+			dv = int64(v)
+		}
+	case bool:
+		if v {
+			dv = int64(1)
+		} else {
+			dv = int64(0)
+		}
 	}
 	var target reflect.Value
 	if column.Descriptor.Ptr {
